@@ -181,6 +181,35 @@ def check(run, ctx):
     (run.ok(S4, "cli _clear_dry_cache", "unlink only behind the explicit --clear-cache request", nontrivial=False) if clear else run.ok(S4, "cli _clear_dry_cache", "no write site", nontrivial=False))
     run.ok(S4, "reachability", f"{len([q for q in pr if q.startswith('src.')])} functions reachable from {len(roots)} lint roots inspected; {n_reach_write} write sites")
 
+    S9 = run.rule("S9", "no SQL statement of the two stores creates a file beside the self-deleting temporary database (journal_mode WAL/PERSIST, ATTACH, VACUUM INTO)", floor=2,
+                  decides="storage_mode=tempfile leaves nothing in the temp directory: NamedTemporaryFile(delete=True) removes the database file only")
+    import re as _re
+    SIDE_FILE_SQL = [(r"PRAGMA\s+(\w+\.)?journal_mode\s*=\s*['\"]?(WAL|PERSIST)", "journal_mode=WAL/PERSIST keeps <db>-wal/-shm or <db>-journal next to the database"),
+                     (r"\bATTACH\b", "ATTACH opens another database file"), (r"VACUUM\s+INTO", "VACUUM INTO writes a new database file")]
+    for fq in sorted(WRITE_ALLOW):
+        f_ = repo.func(fq)
+        mod = f_.module
+        sqls = []
+        for g in repo.funcs.values():
+            if g.module is not mod:
+                continue
+            for n in ast.walk(g.node):
+                if isinstance(n, ast.Call) and call_name(n) in ("execute", "executescript", "executemany") and n.args:
+                    v = repo.fold(mod, n.args[0])
+                    if isinstance(v, str):
+                        sqls.append((v, g, n))
+                    else:
+                        for c in ast.walk(n.args[0]):
+                            if isinstance(c, ast.Constant) and isinstance(c.value, str):
+                                sqls.append((c.value, g, n))
+        run.require(len(sqls) >= 5, f"{mod.name}: only {len(sqls)} SQL statements found")
+        bad = [(v, g, n, why) for v, g, n in sqls for pat, why in SIDE_FILE_SQL if _re.search(pat, v, _re.I)]
+        if bad:
+            v, g, n, why = bad[0]
+            run.finding(S9, g.qual.replace("src.", "", 1), f"side-file-sql:{' '.join(v.split())[:60]}", f"{g.qual} executes `{' '.join(v.split())[:80]}`: {why}; the connection is never closed on the lint path and the temporary file object deletes the main file only, so every tempfile-mode run leaves files behind", f"{mod.rel}:{n.lineno}")
+        else:
+            run.ok(S9, mod.name.replace("src.", "", 1), f"{len(sqls)} SQL statements, none creates a side file")
+
     S6 = run.rule("S6", "long-lived helper objects (built in a rule's constructor) re-bind every attribute they accumulate into at the start of each externally called entry method", floor=40,
                   decides="what one file (or one lint call) left in an analyzer/cache cannot leak into the verdict for the next file or call")
     _s6(run, ctx, L, S6)
@@ -197,6 +226,25 @@ def check(run, ctx):
             run.ok(S7, r_["func"], f"@{r_['decorator']} on a function that reads no file")
     if not recs:
         run.ok(S7, "src", "no functools cache decorators in the package", nontrivial=False)
+
+    S8 = run.rule("S8", "no function mutates module-level state (global re-binding, container mutation, item assignment) except the allowlisted ignore-parser singleton", floor=3,
+                  decides="nothing outlives a lint call in module globals: a second call, another project or another file order sees no residue of the first")
+    S8_ALLOWED = {
+        ("src.linter_config.ignore", "_CACHED_PARSER"): "the documented process-wide parser singleton, re-created when the project root changes (its own accumulating attributes are decided by S6)",
+        ("src.linter_config.ignore", "_CACHED_PROJECT_ROOT"): "key of the singleton above",
+    }
+    n_glob, muts = shared.module_state_mutations(ctx)
+    run.require(n_glob >= 100, f"only {n_glob} module-level names found in src (expected >= 100): the module scan is broken")
+    seen_allowed = set()
+    for mu in muts:
+        key = (mu["module"].name, mu["name"])
+        if key in S8_ALLOWED:
+            if key not in seen_allowed:
+                seen_allowed.add(key)
+                run.ok(S8, f"{key[0].replace('src.', '', 1)}.{key[1]}", "allowlisted: " + S8_ALLOWED[key])
+            continue
+        run.finding(S8, f"{key[0].replace('src.', '', 1)}.{mu['func']}:{key[1]}", f"module-state:{mu['how']}", f"{key[0]}.{mu['func']} changes the module-level name {key[1]} ({mu['how']}): it lives as long as the process, so what one file, project or lint call leaves there decides the verdict for the next", f"{mu['module'].rel}:{mu['line']}")
+    run.ok(S8, "src modules", f"{n_glob} module-level names examined, {len(muts)} run-time mutations, {len(muts) - sum(1 for mu in muts if (mu['module'].name, mu['name']) in S8_ALLOWED)} outside the allowlist")
 
     S5 = run.rule("S5", "constant non-section metadata keys read by rules are written by Orchestrator.lint_file", floor=2)
     lf_f = repo.func(lf)
@@ -235,10 +283,24 @@ def check(run, ctx):
 S6_ACC_MUT = {"append", "extend", "add", "update", "setdefault", "insert", "remove", "discard", "pop", "popitem", "appendleft"}
 S6_EXEMPT = {
     ("src.linter_config.ignore.IgnoreDirectiveParser", "_ignore_cache"): "memo of is_ignored(path) against patterns that are fixed for the parser's lifetime (staleness across edits of .thailintignore is listed, not decided)",
+    ("src.core.registry.RuleRegistry", "_rules"): "registration API: rule id -> rule object, filled by the one-time discovery; holds no per-file data",
     ("src.linters.dry.block_filter.BlockFilterRegistry", "_filters"): "registration API, filled once when the registry is built",
     ("src.linters.dry.block_filter.BlockFilterRegistry", "_enabled_filters"): "configuration API (enable/disable), not per-file state",
     ("src.linters.dry.inline_ignore.InlineIgnoreParser", "_ignore_ranges"): "accumulates over the files of one run by design; emptied by DRYRule.finalize through clear() (decided by S1)",
 }
+
+
+S6_PURE = {"re.compile"}
+
+
+def _pure_memo(target: ast.Subscript, value: ast.expr) -> bool:
+    """self.memo[k] = re.compile(k, <constants>): the stored value is a function of its key alone, so it can never be stale."""
+    if not (isinstance(value, ast.Call) and dotted(value.func) in S6_PURE and isinstance(target.slice, ast.Name) and value.args):
+        return False
+    if not (isinstance(value.args[0], ast.Name) and value.args[0].id == target.slice.id):
+        return False
+    rest = list(value.args[1:]) + [k.value for k in value.keywords]
+    return not any(isinstance(x, ast.Name) for r in rest for x in ast.walk(r) if not (isinstance(x, ast.Name) and x.id in ("re",)))
 
 
 def _s6(run, ctx, L, S6):
@@ -253,6 +315,44 @@ def _s6(run, ctx, L, S6):
             if q.startswith("new:src."):
                 longlived.add(q[4:])
     longlived.add("src.linter_config.ignore.IgnoreDirectiveParser")
+    # the objects a run is driven by, and everything any long-lived object stores on itself (also lazily, outside __init__)
+    longlived |= {"src.orchestrator.core.Orchestrator", "src.api.Linter"}
+    todo_ll = sorted(longlived | rule_quals)
+    done_ll = set()
+    while todo_ll:
+        cq = todo_ll.pop()
+        if cq in done_ll:
+            continue
+        done_ll.add(cq)
+        for bq in repo.mro(cq):
+            bc = repo.classes.get(bq)
+            if bc is None or not bq.startswith("src."):
+                continue
+            for m in bc.methods.values():
+                made: dict[str, set[str]] = {}
+                for n in sorted((x for x in ast.walk(m.node) if isinstance(x, (ast.Assign, ast.AnnAssign)) and x.value is not None), key=lambda x: (x.lineno, x.col_offset)):
+                    news = set()
+                    for x in ast.walk(n.value):
+                        if isinstance(x, ast.Call):
+                            st = cg.site_of(m.module.name, x)
+                            for c in (st or {}).get("callees", ()):
+                                if c.startswith("new:src."):
+                                    news.add(c[4:])
+                        if isinstance(x, ast.Name) and x.id in made:
+                            news |= made[x.id]
+                    if not news:
+                        continue
+                    for t in (n.targets if isinstance(n, ast.Assign) else [n.target]):
+                        if isinstance(t, ast.Name):
+                            made.setdefault(t.id, set()).update(news)
+                        base = t
+                        while isinstance(base, ast.Subscript):
+                            base = base.value
+                        if isinstance(base, ast.Attribute) and isinstance(base.value, ast.Name) and base.value.id == "self":
+                            for q in news:
+                                if q not in longlived and q not in rule_quals:
+                                    longlived.add(q)
+                                    todo_ll.append(q)
     n_cls = 0
     for cq in sorted(longlived - rule_quals):
         cl = repo.classes.get(cq)
@@ -288,6 +388,8 @@ def _s6(run, ctx, L, S6):
                     if isinstance(n, ast.Assign):
                         for t in n.targets:
                             if isinstance(t, ast.Subscript) and isinstance(t.value, ast.Attribute) and isinstance(t.value.value, ast.Name) and t.value.value.id == "self":
+                                if _pure_memo(t, n.value):
+                                    continue
                                 acc.setdefault(t.value.attr, f"{m.name}:{n.lineno} [k]=")
                             if isinstance(t, ast.Attribute) and isinstance(t.value, ast.Name) and t.value.id == "self":
                                 if not any(isinstance(x, ast.Attribute) and x.attr == t.attr and isinstance(x.value, ast.Name) and x.value.id == "self" for x in ast.walk(n.value)):
